@@ -13,7 +13,8 @@ import wasmgen
 from common import BINDC, REPO, SEED, Verdict, main_wrap, tlc, tlc_ok, run, write_ndjson, read_ndjson, pmap
 from wasmgen import b32, b64
 
-DEFRE = re.compile(r"^(?:static )?(?:void|U32|U64|F32|F64) (\w*?f\d+)\((.*)\) ?\{$")
+# any function definition that starts at column 0 and opens its body on the signature line (internal and exported ones alike)
+DEFRE = re.compile(r"^(?:static )?(?:W2C2_INLINE )?[A-Za-z_]\w*[ \*]+(\w+)\((.*)\) ?\{$")
 INST = {"op": "instantiate", "binds": {"mem": 0, "table": 0, "globals": []}}
 
 
@@ -21,7 +22,11 @@ def split_c(text):
     """(sorted function definitions, the remaining text).  A definition runs from its signature line to the
     brace that closes it (generated bodies contain nested braces at column 0)."""
     funcs, rest, cur, depth = [], [], None, 0
+    # comments and blank lines are not definitions
+    text = re.sub(r"/\*.*?\*/", "", text, flags=re.S)
     for line in text.splitlines():
+        if cur is None and not line.strip():
+            continue
         if cur is None:
             if DEFRE.match(line):
                 cur, depth = [line], line.count("{") - line.count("}")
@@ -82,6 +87,7 @@ def choice_vectors(rng, m, n):
             {"custom": [{"at": 3, "name": "name", "payload": [1, 7, 1, 0xE7, 0x07, 3, 0x61, 0x62, 0x63]}]},
             {"custom": [{"at": 5, "name": "name", "payload": [0xFF, 0xFF, 0xFF, 0xFF, 0xFF, 0xFF]}, {"at": 99, "name": "name", "payload": []}]},
             {"custom": [{"at": 11, "name": "name", "payload": [0, 2, 1, 0x6D, 1, 4, 1, 0, 1, 0x78, 2, 1, 0]}]},
+            {"explicitElse": True}, {"explicitElse": True, "padall": 1},
             {"splitLocals": "single"}, {"splitLocals": "pairs"}, {"splitLocals": "empties"}, {"splitLocals": "single", "padall": 1}]
     for _ in range(n):
         pad = {f: rng.choice([0, 0, 1, 2, 4, 9]) for f in rng.sample(fields, max(1, len(fields) // rng.choice([2, 3, 6])))}
@@ -93,6 +99,8 @@ def choice_vectors(rng, m, n):
             c["dataForm"] = {str(k): "flag2" for k in range(4) if rng.random() < 0.5}
         if rng.random() < 0.3:
             c["splitLocals"] = rng.choice(["single", "pairs", "empties"])
+        if rng.random() < 0.3:
+            c["explicitElse"] = True
         if rng.random() < 0.3:
             c["emitEmpty"] = rng.sample(["type", "import", "function", "table", "memory", "global", "export", "element", "data"], 3)
         vecs.append(c)
@@ -154,7 +162,7 @@ def main():
             for ci, c in enumerate(choice_vectors(rng, em, 6 if tier == "quick" else 60)):
                 data = wasm_encode.encode(em, c)
                 jobs.append((name, ci, c, canon, data))
-                if name == "directed" or ci < 2:
+                if name == "directed" or ci < 2 or (c.get("explicitElse") and ci < 12):
                     items.append({"id": "%s_c%d" % (name, ci), "module": m, "script": script, "wasm": data})
         # sparse modules: most sections absent; every absent section may instead be present with a zero count, one at a
         # time, in pairs, and in random subsets (function and code sections independently: both have zero entries)
@@ -209,11 +217,15 @@ def main():
             shutil.rmtree(d, ignore_errors=True)
             devs = []
             if out[0][0] != 0:
-                return [("machinery", "canonical encoding rejected: " + out[0][1][-300:])]
+                # the module is valid (WasmValid gates the replayed ones; the sparse ones are valid by inspection): a rejected
+                # canonical encoding is a rejected valid encoding
+                return [("canonical-encoding-rejected", out[0][1][-300:])]
             if out[1][0] != 0:
                 return [("encoding-rejected", out[1][1][-300:])]
-            f0, r0 = split_c(out[0][2])
-            f1, r1 = split_c(out[1][2])
+            # an `if` written with an explicit empty else arm comes out with an empty `else{ }`: no statement, the same definition
+            emptyelse = (lambda t: re.sub(r"\}\s*else\s*\{\s*\}", "}", t)) if c.get("explicitElse") else (lambda t: t)
+            f0, r0 = split_c(emptyelse(out[0][2]))
+            f1, r1 = split_c(emptyelse(out[1][2]))
             if f0 != f1:
                 devs.append(("function-definitions-differ", "%d vs %d definitions" % (len(f0), len(f1))))
             if r0 != r1:
